@@ -1,5 +1,6 @@
 import Cose.Msg.Model
 import Cose.Key.Prims
+import Cose.Gen.Footprints
 /-!
 # C06 — AEAD nonces are well-formed, derived per RFC 9052, published, and fresh
 
@@ -207,6 +208,17 @@ def draw (stream : Bytes) (n : Nat) : Bytes × Bytes := (stream.take n, stream.d
 def drawMany : Bytes → Nat → Nat → List Bytes
   | _, _, 0 => []
   | stream, n, k + 1 => (draw stream n).1 :: drawMany (draw stream n).2 n k
+
+/-- **the model's `draw` is what the source does** (regenerated fact): `GetRandomBytes` allocates the buffer and
+    fills it with one `crypto/rand.Read` (whose error the library ignores: assumed not to fail, DESIGN §8) — nothing else:
+    no buffering layer, pool, counter or package state (its footprint is empty), so the nonce is a whole,
+    unmodified block of the operating system's random stream. -/
+theorem random_source_is_crypto_rand :
+    Footprints.randomCallees =
+      [("key.GetRandomBytes", ["make", "crypto/rand.Read"]),
+       ("key.GetRandomUint32", ["key.GetRandomBytes", "encoding/binary.bigEndian.Uint32"])]
+    ∧ (Footprints.footprints.filter (fun m => m.1 == "key.GetRandomBytes" || m.1 == "key.GetRandomUint32")) = [] := by
+  decide +kernel
 
 /-- the i-th encryption uses exactly bytes [i·n, (i+1)·n) of the stream: no truncation, reuse or mixing,
     so two nonces coincide only if two disjoint blocks of `crypto/rand` output coincide -/
